@@ -326,6 +326,7 @@ ADDENDA = {
     "C12": " Also a constructs program (BLOCK locals, ASSOCIATE names, depth-3 member chains, array-element chains, blanks around '%', DO / IF / PRINT statements) and nested_only: all sequences of <= 3 requests over three procedures of a host that name one module with different ONLY lists.",
     "C13": " Family session_layout: every corpus program re-laid-out on disk at its edges (blank / comment lines before the first or after the last statement, no final break, CRLF) while the server holds it x didSave / didOpen / didOpen+didClose, outline compared with a fresh server's.",
     "C14": " Further fixed-form renderings: a zero in column 6 of initial lines, continuation text glued to the mark (also on the first line of the file), trailing '!' comments naming the statement's entities on plain and on continued lines (one and two continuation breaks).",
+    "C15": " Workspace WJ_macro_in_one_file: a macro defined by one preprocessed file and tested (#ifdef) by another that does not define it.",
     "C16": " Header spellings 'content-length: N', 'Content-Length:N' and 'CONTENT-LENGTH:  N' after Content-Type are part of the reader family.",
     "C17": " Payloads with shell syntax ($(...), back-ticks, ${X:-...}) at the configured path options of file and command line; the debug log's path occupied by a symbolic link to a file outside the workspace.",
     "C18": " The tree has directory names that are not their own glob pattern (run[1] next to run1); family root_naming (root named pr[1] / pr? / p*r with decoy siblings, root reached through a symbolic link) x a reduced settings product; excl_paths '.' and the root's absolute path.",
